@@ -15,7 +15,7 @@ import (
 
 func init() { Registry["C20"] = runC20 }
 
-const explanationC20 = "Decides an ownership discipline that holds for every schedule, on goa's runtime packages (pkg, http, http/middleware, grpc, grpc/middleware, middleware, middleware/xray, security) and on the handler templates: (R20.1) closed inventory — every store to a package-level variable, to a variable captured by an escaping closure, or through such a variable is found on the SSA form and must be performed under an exclusive lock that a must-hold dataflow proves held, by a sync/atomic call, or in an init-time function (reviewed table); (R20.2) fields that are accessed through sync/atomic anywhere are accessed only through sync/atomic, lock-protected package variables are read under a lock, and the adaptive sampler writes its window start only under its mutex; (R20.4) request-time methods of the shared types (muxer, gRPC handlers, traced doer) never write receiver state — only the mount-time methods Handle/Use do, under the mutex (C16/R16.4); (R20.3) in the handler templates the per-request function literal assigns only to variables it declares; (R20.5) fields written under a lock are read and written under a lock everywhere (lock context inherited from callers and sync.Once.Do); (R20.6) package variables of types that are not safe for concurrent use (including function variables bound to their methods) are only used under a lock; (R20.7) the shutdown sweep visits every in-flight stream; (R20.8) fields initialised under a sync.Once are read only after Do; (R20.9) pooled values are not used after Put. shared R16.6 (route probes made per request use a fresh routing context). NOT decided: absence of races in generated code for every design beyond the templates' capture discipline, in user code, and in third-party packages (chi, grpc, encoding/*)."
+const explanationC20 = "Decides an ownership discipline that holds for every schedule, on goa's runtime packages (pkg, http, http/middleware, grpc, grpc/middleware, middleware, middleware/xray, security) and on the handler templates: (R20.1) closed inventory — every store to a package-level variable, to a variable captured by an escaping closure, or through such a variable is found on the SSA form and must be performed under an exclusive lock that a must-hold dataflow proves held, by a sync/atomic call, or in an init-time function (reviewed table); (R20.2) fields that are accessed through sync/atomic anywhere are accessed only through sync/atomic, lock-protected package variables are read under a lock, and the adaptive sampler writes its window start only under its mutex; (R20.4) request-time methods of the shared types (muxer, gRPC handlers, traced doer) never write receiver state — only the mount-time methods Handle/Use do, under the mutex (C16/R16.4); (R20.3) in the handler templates the per-request function literal assigns only to variables it declares; (R20.5) fields written under a lock are read and written under a lock everywhere (lock context inherited from callers and sync.Once.Do); (R20.6) package variables of types that are not safe for concurrent use (including function variables bound to their methods) are only used under a lock; (R20.7) the shutdown sweep visits every in-flight stream; (R20.8) fields initialised under a sync.Once are read only after Do; (R20.9) pooled values are not used after Put. shared R16.6 (route probes made per request use a fresh routing context). shared R16.4 (Handle and Use mutate the muxer - pending list, wildcard table, router - only under the muxer's mutex, released by defer). NOT decided: absence of races in generated code for every design beyond the templates' capture discipline, in user code, and in third-party packages (chi, grpc, encoding/*)."
 
 var runtimeDirs = []string{"pkg", "http", "http/middleware", "grpc", "grpc/middleware", "middleware", "middleware/xray", "security", "http/middleware/xray", "grpc/middleware/xray"}
 
@@ -132,6 +132,19 @@ func runC20(c *an.Ctx) string {
 	r202AtomicFields(c)
 	r202Sampler(c)
 	r204SharedTypes(c)
+	// shared with C16 (rule id R16.4 only): the muxer's mutex is one of the locks the property names (http/mux.go:97-99);
+	// Handle and Use touch the muxer - pending middlewares, wildcard table and the router itself - only while holding
+	// it, released by defer (the router's Method panics on a bad pattern)
+	before := len(c.Obls)
+	r16Handle(c)
+	r16Use(c)
+	kept := c.Obls[:before]
+	for _, o := range c.Obls[before:] {
+		if o.Rule == "R16.4" {
+			kept = append(kept, o)
+		}
+	}
+	c.Obls = kept
 	r16Probe(c) // shared with C16 (rule id R16.6): a route probe made while serving a request uses a routing context of its own, never one shared between requests
 	return explanationC20
 }
@@ -929,6 +942,7 @@ func r209RuntimeLints(c *an.Ctx) {
 			}
 		}
 	}
+	poolHygiene(c, rule)
 	c.Okf(rule, "runtime packages#lints", "%d functions of the runtime packages: no pooled value is used after it was returned to its pool", n)
 	c.Floor(rule, n, 200, "functions of the runtime packages")
 }
@@ -951,4 +965,18 @@ func calledOnlyFrom(c *an.Ctx, dir string, f *an.Func, prefix string, names map[
 		})
 	}
 	return called && names != nil
+}
+
+// poolHygiene: every sync.Pool of the runtime packages is used with a Reset on one side (all Gets or all Puts);
+// otherwise a value handed out by the pool still holds what its previous user wrote - the bytes of another request.
+func poolHygiene(c *an.Ctx, rule string) {
+	var funcs []*an.Func
+	for _, dir := range runtimeDirs {
+		funcs = append(funcs, c.AllFuncs(dir)...)
+	}
+	pools, leaks := an.PoolLeaks(funcs)
+	for _, l := range leaks {
+		c.Failf(rule, fmt.Sprintf("%s#pool(%s)", c.RefName(l.In), l.Pool), l.Get.Pos(), "a value taken from pool %s is used without being Reset, and the functions that Put into the pool do not Reset it either: it still holds what its previous user wrote (another request's bytes)", l.Pool)
+	}
+	c.Okf(rule, "runtime packages#pools", "%d sync.Pool users checked: every pool is Reset on the Get side or on the Put side", pools)
 }
